@@ -24,6 +24,10 @@ func (s tstep) lean() string {
 	switch s.Kind {
 	case "uint":
 		return fmt.Sprintf(".uint %d", s.Bits)
+	case "uintalg":
+		return ".uintAlg"
+	case "tok":
+		return ".tok"
 	case "name":
 		return ".name"
 	case "endstr":
@@ -73,6 +77,7 @@ func (p *pkgInfo) parsePlanOf(fd *ast.FuncDecl, depth int) ([]tstep, bool) {
 	uintVar, uintErr, uintBits := "", "", 0 // the last ParseUint: value variable, error variable, width
 	nameVar, nameOk := "", ""               // the last toAbsoluteName: name variable, ok variable
 	endVar, endErr, endKind := "", "", ""   // the last endingToString / endingToTxtSlice
+	rawTok := ""                            // field that takes the raw token (after an `if l.err` check)
 	lhsNames := func(s *ast.AssignStmt) []string {
 		var ns []string
 		for _, l := range s.Lhs {
@@ -123,6 +128,10 @@ func (p *pkgInfo) parsePlanOf(fd *ast.FuncDecl, depth int) ([]tstep, bool) {
 						out = append(out, tstep{Kind: "name", Field: f})
 						nameVar = ""
 						continue
+					case rhs == "l.token" && rawTok == f:
+						out = append(out, tstep{Kind: "tok", Field: f})
+						rawTok = ""
+						continue
 					case rhs == "l.token":
 						continue // provisional, overwritten by the absolute name
 					case endVar != "" && rhs == endVar:
@@ -140,6 +149,27 @@ func (p *pkgInfo) parsePlanOf(fd *ast.FuncDecl, depth int) ([]tstep, bool) {
 			}
 			return nil, false
 		case *ast.IfStmt:
+			// `if i, err := strconv.ParseUint(l.token, 10, 8); err != nil { …StringToAlgorithm[tokenUpper]…; rr.F = i } else { rr.F = uint8(i) }`
+			if s.Init != nil && s.Else != nil && p.src(s.Init) == "i,err:=strconv.ParseUint(l.token,10,8)" && p.src(s.Cond) == "err!=nil" {
+				body := p.src(s.Body)
+				els := p.src(s.Else)
+				if strings.HasPrefix(body, "{tokenUpper:=strings.ToUpper(l.token)i,ok:=StringToAlgorithm[tokenUpper]if!ok||l.err{return&ParseError{") &&
+					strings.HasSuffix(body, "}rr.Algorithm=i}") && els == "{rr.Algorithm=uint8(i)}" {
+					out = append(out, tstep{Kind: "uintalg", Bits: 8, Field: "Algorithm"})
+					continue
+				}
+				return nil, false
+			}
+			// `if l.err { return … }` in front of `rr.F = l.token`: the raw token is the field
+			if s.Else == nil && s.Init == nil && p.src(s.Cond) == "l.err" && len(s.Body.List) == 1 {
+				if _, ok := s.Body.List[0].(*ast.ReturnStmt); ok && idx+1 < len(stmts) {
+					if as, ok := stmts[idx+1].(*ast.AssignStmt); ok && len(as.Lhs) == 1 && len(as.Rhs) == 1 && rrField(as.Lhs[0]) != "" && p.src(as.Rhs[0]) == "l.token" {
+						rawTok = rrField(as.Lhs[0])
+						continue
+					}
+				}
+				return nil, false
+			}
 			// error checks directly behind the idiom they belong to
 			if s.Else == nil && len(s.Body.List) == 1 && s.Init == nil {
 				if _, ok := s.Body.List[0].(*ast.ReturnStmt); ok {
@@ -184,7 +214,7 @@ func (p *pkgInfo) parsePlanOf(fd *ast.FuncDecl, depth int) ([]tstep, bool) {
 			return nil, false
 		}
 	}
-	if uintVar != "" || nameVar != "" || endVar != "" {
+	if uintVar != "" || nameVar != "" || endVar != "" || rawTok != "" {
 		return nil, false
 	}
 	return out, true
